@@ -1456,10 +1456,23 @@ func vGen2Fields(r *rand.Rand, max int, long bool) []g2Field {
 		}
 		if r.Intn(8) == 0 {
 			f.comment = "// tlgen:tl1mask:\"" + strconv.Itoa(r.Intn(32)) + "\""
+		} else if r.Intn(10) == 0 {
+			f.comment = vMultiLineComment(r, "field "+strconv.Itoa(i))
 		}
 		res = append(res, f)
 	}
 	return res
+}
+
+// vMultiLineComment is a comment of 1-3 lines; following lines are indented the way the formatter itself prints them (or deeper)
+func vMultiLineComment(r *rand.Rand, what string) string {
+	n := 1 + r.Intn(3)
+	var lines []string
+	for i := 0; i < n; i++ {
+		lines = append(lines, "// "+what+" line "+strconv.Itoa(i))
+	}
+	indent := []string{"\n    ", "\n\t", "\n\t\t", "\n"}[r.Intn(4)]
+	return strings.Join(lines, indent)
 }
 
 func vGen2Def(r *rand.Rand, isRet bool) g2Def {
@@ -1483,6 +1496,8 @@ func vGen2Def(r *rand.Rand, isRet bool) g2Def {
 			}
 			if r.Intn(6) == 0 {
 				v.comment = "// tlgen:tl1name:\"n" + strconv.Itoa(i) + "\""
+			} else if r.Intn(10) == 0 {
+				v.comment = vMultiLineComment(r, "variant "+strconv.Itoa(i))
 			}
 			d.variants = append(d.variants, v)
 		}
@@ -1507,6 +1522,8 @@ func vGenTL2File(r *rand.Rand, n int) g2File {
 		}
 		if r.Intn(6) == 0 {
 			c.comment = "// comment " + strconv.Itoa(i) + "\n"
+		} else if r.Intn(10) == 0 {
+			c.comment = strings.ReplaceAll(vMultiLineComment(r, "combinator "+strconv.Itoa(i)), "\n    ", "\n") + "\n"
 		}
 		if r.Intn(3) == 0 {
 			c.isFunc = true
